@@ -201,6 +201,13 @@ func (w *World) emitFlushImage(st *storeState, header []byte, W []pageWrite, bas
 	if len(header) >= 20 && binary.LittleEndian.Uint64(header[12:20]) != frontier {
 		alloc = "yes"
 	}
+	if sel.OnlyStrict {
+		strict := class == "none" || class == "only-new" || class == "complete" || (class == "all-pages-no-header" && alloc == "no")
+		if !strict {
+			w.count("image_flush_dropped_not_strict")
+			return
+		}
+	}
 	w.Captured = append(w.Captured, &Image{
 		Sel: sel, Idx: idx, Sub: sub, Files: files, StmtIdx: w.stmtIdx, InStmt: w.inStmt,
 		Info: map[string]string{
